@@ -1514,6 +1514,8 @@ func (vc *VC) joinThreads(st *State, instr ssa.Instruction) {
 	joined := vc.hget(st.heap, "GV_Joined", "Int")
 	base := app("ite", app(">=", joined, entryForks), joined, entryForks)
 	forks := vc.hget(st.heap, "GV_Forks", "Int")
+	// global invariant of the two engine-maintained counters: Joined is only ever set to a value Forks had
+	st.assume = append(st.assume, app("<=", joined, forks))
 	// all go sites of this function (they may be inside loops that were cut: use the static list)
 	seen := map[*ssa.Function]bool{}
 	for _, b := range vc.fn.Blocks {
